@@ -9,6 +9,7 @@ import subprocess
 import time
 
 from lib import common, vbuild
+from lib import worker as wk
 
 PROP = 'C07'
 RULE = ('(i) nesting ladder: for each of ~30 constructs (brackets, parens, angles, braces, {{ }}, image/footnote/citation/glossary brackets, '
@@ -43,6 +44,9 @@ def constructs():
     pair('brace', '{', 'a', '}')
     pair('image', '![', 'a', ']')
     pair('footnote', '[^', 'a', ']')
+    pair('footnote_text', '[^a ', 'b', ']')          # inline notes with text of their own, each inside the previous one
+    pair('citation_text', '[#a ', 'b', ']')
+    pair('glossary_text', '[?a ', 'b', ']')
     pair('citation', '[#', 'a', ']')
     pair('glossary', '[?', 'a', ']')
     pair('emph_star', '*a ', 'b', ' a*')
@@ -102,6 +106,50 @@ def prebuild():
     vbuild.cli('plain-O0')
 
 
+# Optional passes of the library that walk the whole parse tree on their own are switched on by one more construct somewhere in the document
+# (a definition, a table of contents, metadata, ...): the deep nesting must not matter to them either.
+FEATURES = {'abbr': '\n\n[>HTML]: x\n\nHTML here\n', 'gloss': '\n\n[?term]: gloss\n\nterm here [?term]\n', 'toc': '\n\n# Head\n\n{{TOC}}\n\n[Head][]\n',
+            'refimg': '\n\n[r]: i.png "t" width=3\n\n![i][r] [l][r]\n', 'meta': None, 'table': '\n\n| a | b |\n|---|---|\n| c | d |\n[cap][lab]\n',
+            'cite': '\n\n[#k]: Ref\n\nx[#k] [p. 3][#k]\n', 'def': '\n\nterm\n: definition\n', 'math': '\n\n$$x$$ \\\\(y\\\\)\n'}
+FEATURE_CONSTRUCTS = ['bracket', 'paren', 'emph_star', 'quote_dbl', 'footnote_text', 'critic_add', 'image', 'link_nest', 'blockquote', 'list_marker', 'brace2', 'angle', 'math_paren']
+FEATURE_FMTS = ['html', 'latex', 'fodt', 'opml', 'itmz', 'epub', 'odt', 'bundlezip', 'beamer', 'memoir', 'mmd']
+
+
+def with_feature(doc, feature):
+    if not feature or feature == 'plain':
+        return doc
+    if FEATURES[feature] is None:
+        return 'Title: x\ncss: s.css\n\n' + doc
+    return doc + FEATURES[feature]
+
+
+def plateau_task(args):
+    """Peak stack of one conversion at two nesting depths beyond every built-in limit: bounded recursion has reached its plateau at the first."""
+    name, prefix, fmt, lo, hi, budget, work = args
+    gen = constructs()[name]
+    out = dict(name=name, prefix=prefix, fmt=fmt, stacks=[], runs=0, note=None, path=None)
+    for n in (lo, hi):
+        p = os.path.join(work, 'plat-%s-%s-%s-%d.text' % (name, {'': 'p', '> ': 'q', '* ': 'l'}[prefix], fmt, n))
+        open(p, 'w').write(prefix + gen(n, 'closed') + '\n')
+        try:
+            r = subprocess.run([cost_bin(), p, str(FMT_NUM[fmt]), str(wk.EXT_DEFAULT), '1'], stdout=subprocess.PIPE, stderr=subprocess.PIPE, timeout=budget)
+        except subprocess.TimeoutExpired:
+            out['note'] = 'n=%d exceeded %.0fs' % (n, budget)
+            return out
+        out['runs'] += 1
+        m = re.search(r'stack=(\d+)', r.stdout.decode())
+        if r.returncode < 0:
+            out['stacks'].append(('signal%d' % -r.returncode, n))
+            out['path'] = p
+            return out
+        if not m:
+            out['note'] = 'no measurement (rc=%d)' % r.returncode
+            return out
+        out['stacks'].append((int(m.group(1)), n))
+        out['path'] = p
+    return out
+
+
 def _run_cli(cli, fmt, compat, data, timeout):
     cmd = [cli, '-t', fmt] + {0: [], 1: ['-c'], 2: ['-a'], 3: ['-r']}[int(compat)]      # 2/3: CriticMarkup accept / reject pre-pass
     t0 = time.time()
@@ -114,19 +162,20 @@ def _run_cli(cli, fmt, compat, data, timeout):
 
 def ladder_task(args):
     """One (construct, form, fmt, mode) ladder climbed until a rung fails or times out."""
-    name, form, fmt, compat, rungs, budget, work = args
+    name, form, fmt, compat, rungs, budget, work = args[:7]
+    feature = args[7] if len(args) > 7 else ''
     gen = constructs()[name]
     cli = vbuild.cli('plain-O0')
-    out = dict(name=name, form=form, fmt=fmt, compat=compat, done=[], fail=None, inconclusive=None, runs=0)
+    out = dict(name=name + ('+' + feature if feature else ''), form=form, fmt=fmt, compat=compat, done=[], fail=None, inconclusive=None, runs=0)
     for n in rungs:
-        doc = gen(n, form).encode()
+        doc = with_feature(gen(n, form), feature).encode()
         rc, dt, err = _run_cli(cli, fmt, compat, doc, budget)
         out['runs'] += 1
         if rc is None:
             out['inconclusive'] = n
             break
         if rc != 0:
-            p = os.path.join(work, 'fail-%s-%s-%s-%d-%d.txt' % (name, form, fmt, compat, n))
+            p = os.path.join(work, 'fail-%s-%s-%s-%d-%d.txt' % (out['name'], form, fmt, compat, n))
             open(p, 'wb').write(('fmt=%s compat=%d\n' % (fmt, compat)).encode() + doc)
             sig = 'stack:signal%d' % (-rc) if rc < 0 else 'stack:rc%d' % rc
             out['fail'] = (n, sig, p, err.decode(errors='replace'))
@@ -205,6 +254,19 @@ def replay(path):
             return 1
         print('replay passes:', path)
         return 0
+    m = re.match(rb'plateau fmt=(\w+) name=(\w+) prefix=([pql])', head)
+    if m:
+        work = common.scratch_dir('c07-replay')
+        r = plateau_task((m.group(2).decode(), {'p': '', 'q': '> ', 'l': '* '}[m.group(3).decode()], m.group(1).decode(), 2500, 10000, 600, work))
+        shutil.rmtree(work, ignore_errors=True)
+        st_ = r['stacks']
+        bad = (st_ and isinstance(st_[-1][0], str)) or (len(st_) == 2 and st_[1][0] > 1.5 * st_[0][0] + 64 * 1024)
+        if bad:
+            common.violation(PROP, path, 'stack:grows-with-depth:%s' % r['name'])
+            print(st_)
+            return 1
+        print('replay passes:', path, st_)
+        return 0
     print('unrecognised replay file')
     return 2
 
@@ -257,9 +319,20 @@ def run(tier):
     for name in ('flat_critic', 'flat_abbrev'):
         for mode in ((0, 2, 3) if name == 'flat_critic' else (0,)):
             tasks.append((name, 'closed', 'html', mode, rungs_full[1:] + ([] if quick else [3000000]), budget, work))
+    # deep nesting together with one construct that switches on an optional tree walk, through every writer incl. the packaged formats
+    fc = ['bracket', 'emph_star', 'quote_dbl', 'image'] if quick else FEATURE_CONSTRUCTS
+    ff = ['html', 'fodt', 'bundlezip', 'latex', 'epub'] if quick else FEATURE_FMTS
+    for name in fc:
+        for feature in ['plain'] + sorted(FEATURES):
+            for fmt in ff:
+                if feature == 'plain' and fmt in FMTS_ALL:
+                    continue        # covered above
+                tasks.append((name, 'closed', fmt, 0, [100000] if quick else [10000, 100000, 300000], budget * 3, work, feature))
     with cf.ProcessPoolExecutor(common.NCPU) as ex:
         for r in ex.map(ladder_task, tasks, chunksize=2):
             ev.evaluations += r['runs']
+            if '+' in r['name']:
+                ev.add_class('ladders_with_feature_construct')
             for n, nbytes, dt in r['done']:
                 if nbytes >= 10000:
                     ev.nontrivial.add('%s/%s/%s/%d/%d' % (r['name'], r['form'], r['fmt'], r['compat'], n))
@@ -273,6 +346,33 @@ def run(tier):
                 n, sig, p, err = r['fail']
                 failures.append(('%s:%s' % (sig, r['name']), p, '%s %s %s compat=%d n=%d %s' % (r['name'], r['form'], r['fmt'], r['compat'], n, err)))
     ev.sample({'ladder': 'bracket closed', 'n': 1000, 'document': '[' * 12 + '...a...' + ']' * 12})
+    # ---- (i-b) stack plateau: beyond the built-in limits the peak stack no longer depends on the nesting depth --------------------------
+    pc = ['footnote_text', 'citation_text', 'glossary_text', 'bracket', 'emph_star', 'critic_add', 'image', 'link_nest', 'math_paren'] if quick else \
+        [n_ for n_ in constructs() if n_ not in SINGLE_FORM and n_ not in ('div',)]
+    ptasks_ = [(name, prefix, fmt, 2500, 10000, (30 if quick else 240) * scale, work) for name in pc for prefix in ('', '> ', '* ')
+               for fmt in (('fodt', 'html', 'latex') if quick else ('fodt', 'html', 'latex', 'opml', 'beamer', 'memoir', 'itmz'))]
+    with cf.ProcessPoolExecutor(common.NCPU) as ex:
+        for r in ex.map(plateau_task, ptasks_, chunksize=1):
+            ev.evaluations += r['runs']
+            if r['note']:
+                ev.add_class('plateau_inconclusive')
+                if len(ev.inconclusive) < 60:
+                    ev.inconclusive.append('plateau %s/%r/%s: %s' % (r['name'], r['prefix'], r['fmt'], r['note']))
+                continue
+            st_ = r['stacks']
+            if r['path']:
+                rp_ = r['path'] + '.replay'
+                open(rp_, 'w').write('plateau fmt=%s name=%s prefix=%s\n(re-generated on replay: %s nested 2500 and 10000 deep behind the prefix %r)\n' % (r['fmt'], r['name'], {'': 'p', '> ': 'q', '* ': 'l'}[r['prefix']], r['name'], r['prefix']))
+                r['path'] = rp_
+            if st_ and isinstance(st_[-1][0], str):
+                failures.append(('stack:%s:%s' % (st_[-1][0], r['name']), r['path'], 'cost meter killed at nesting depth %d (%s, prefix %r, %s)' % (st_[-1][1], r['name'], r['prefix'], r['fmt'])))
+                continue
+            if len(st_) == 2:
+                ev.add_class('plateau_pairs_measured')
+                ev.nontrivial.add('plateau/%s/%s/%s' % (r['name'], r['prefix'], r['fmt']))
+                if st_[1][0] > 1.5 * st_[0][0] + 64 * 1024:
+                    failures.append(('stack:grows-with-depth:%s' % r['name'], r['path'], 'peak stack %d bytes at depth %d against %d bytes at depth %d (%s, prefix %r, %s): recursion is not bounded by a depth limit'
+                                     % (st_[1][0], st_[1][1], st_[0][0], st_[0][1], r['name'], r['prefix'], r['fmt'])))
     # ---- (ii) repetition ladders + (iii) published patterns: cost in executed edges -----------------------------------------------------
     seeds_dir = os.path.join(work, 'seeds')
     os.makedirs(seeds_dir)
